@@ -98,8 +98,10 @@ class FilReader(Filterbank):
         nchans: int | None = None,
     ) -> FilterbankBlock:
         fch1 = fch1 if fch1 is not None else self.header.fch1
-        nchans = nchans if nchans is not None else self.header.nchans
-        if fch1 > self.header.fch1 or nchans > self.header.nchans:
+        # Channel whose centre is nearest to fch1 (the band may ascend or descend)
+        chan_start = round((fch1 - self.header.fch1) / self.header.foff)
+        nchans = nchans if nchans is not None else self.header.nchans - chan_start
+        if chan_start < 0 or nchans < 1 or chan_start + nchans > self.header.nchans:
             msg = f"requested block is out of range: fch1={fch1}, nchans={nchans}"
             raise ValueError(msg)
         if start < 0 or start + nsamps > self.header.nsamples:
@@ -111,14 +113,13 @@ class FilReader(Filterbank):
         nsamps_read = data.size // self.header.nchans
         data = data.reshape(nsamps_read, self.header.nchans).transpose()
 
-        chan_start = round((fch1 - self.header.fch1) / self.header.foff)
         data_block = data[chan_start : chan_start + nchans]
         start_mjd = self.header.mjd_after_nsamps(start)
         new_header = self.header.new_header(
             {
                 "tstart": start_mjd,
                 "nsamples": nsamps_read,
-                "fch1": fch1,
+                "fch1": self.header.fch1 + chan_start * self.header.foff,
                 "nchans": nchans,
             },
         )
@@ -288,8 +289,10 @@ class PFITSReader(Filterbank):
         nchans: int | None = None,
     ) -> FilterbankBlock:
         fch1 = fch1 if fch1 is not None else self.header.fch1
-        nchans = nchans if nchans is not None else self.header.nchans
-        if fch1 > self.header.fch1 or nchans > self.header.nchans:
+        # Channel whose centre is nearest to fch1 (the band may ascend or descend)
+        chan_start = round((fch1 - self.header.fch1) / self.header.foff)
+        nchans = nchans if nchans is not None else self.header.nchans - chan_start
+        if chan_start < 0 or nchans < 1 or chan_start + nchans > self.header.nchans:
             msg = f"requested block is out of range: fch1={fch1}, nchans={nchans}"
             raise ValueError(msg)
         if start < 0 or start + nsamps > self.header.nsamples:
@@ -304,11 +307,15 @@ class PFITSReader(Filterbank):
         data = data[startsamp : startsamp + nsamps]
         data = data.reshape(nsamps, self.header.nchans).transpose()
 
-        chan_start = round((fch1 - self.header.fch1) / self.header.foff)
         data_block = data[chan_start : chan_start + nchans]
         start_mjd = self.header.mjd_after_nsamps(start)
         new_header = self.header.new_header(
-            {"tstart": start_mjd, "nsamples": nsamps, "fch1": fch1, "nchans": nchans},
+            {
+                "tstart": start_mjd,
+                "nsamples": nsamps,
+                "fch1": self.header.fch1 + chan_start * self.header.foff,
+                "nchans": nchans,
+            },
         )
         return FilterbankBlock(data_block, new_header)
 
